@@ -410,13 +410,15 @@ by-passed and that when it ends nothing is left acquired — for every schedule,
 
 /-- **Inside a piece the controller does not move**; the outcome of a composite operation is recorded only by the step
 that ends its last piece: the finaliser (`fin p o` ↦ `o`), or — for a `run` that failed in `wait_until_alive()` before its
-`try:` — the error message (`rErr` ↦ `notStarted`). -/
+`try:` — the error message (`rErr` ↦ `notStarted`); a `Worker.submit` on its own (`sSub`, what `as_completed` calls; it acquires
+and releases nothing) returns `ok` as soon as its call has been made. -/
 theorem C20_sched_outcome_only_at_end (pw : Owner.Pid → List Owner.Wid) (x x' : OwnerEnv.X) (t : Owner.Tid)
     (cl : Owner.Call) (k : Owner.K) (hcur : (x.base.T t).cur = some (cl, k)) (h : OwnerEnv.xstep? pw x t = some x') :
     (x'.env.ctl t = x.env.ctl t ∧ x'.env.outs t = x.env.outs t) ∨
     ((x'.base.T t).cur = none ∧ x'.env.ctl t = .idle ∧
       ((∃ p o, x.env.ctl t = .fin p o ∧ x'.env.outs t = x.env.outs t ++ [o]) ∨
-       (∃ p, x.env.ctl t = .rErr p ∧ x'.env.outs t = x.env.outs t ++ [.notStarted]))) :=
+       (∃ p, x.env.ctl t = .rErr p ∧ x'.env.outs t = x.env.outs t ++ [.notStarted]) ∨
+       (∃ p b w, x.env.ctl t = .sSub p b w ∧ x'.env.outs t = x.env.outs t ++ [.ok]))) :=
   OwnerEnv.xstep_ctl_inCall hcur h
 
 /-- **Every way out of the `try:` goes through the `finally:`.**  A thread whose controller is inside the `try:` of
